@@ -1,0 +1,26 @@
+//go:build verif
+
+package trie2
+
+// Contracts for gocv (contract-based deductive verification, /verif).
+
+//@ opaque type github.com/NethermindEth/juno/core/felt.Felt
+
+// ---- range proofs: the data handed in is checked before anything is built from it (C10) -----------
+// Accepted only if there are as many values as keys, the keys are non-decreasing (feltCmp is the
+// assumed three-way comparison of field elements) and no value is missing or zero.
+//@ ghost func feltCmp(a felt.Felt, b felt.Felt) int
+//@ extern func github.com/NethermindEth/juno/core/felt.(*Felt).Cmp
+//@   requires z != nil && x != nil
+//@   ensures result == feltCmp(*z, *x)
+//@ extern func github.com/NethermindEth/juno/core/felt.(*Felt).Equal
+//@   requires z != nil && x != nil
+//@   ensures result <==> (*z == *x)
+//@ func verifyProofData
+//@   props C10
+//@   arith int
+//@   requires forall i int :: 0 <= i && i < len(keys) ==> keys[i] != nil
+//@   loop 1: invariant checked_so_far: len(keys) == len(values) && (forall j int :: 0 <= j && j <= rangeindex ==> values[j] != nil && *values[j] != felt.Zero && (j < len(keys) - 1 ==> feltCmp(*keys[j], *keys[j+1]) <= 0))
+//@   ensures same_length: result == nil ==> len(keys) == len(values)
+//@   ensures non_decreasing: result == nil ==> (forall j int :: 0 <= j && j < len(keys) - 1 ==> feltCmp(*keys[j], *keys[j+1]) <= 0)
+//@   ensures no_empty_leaf: result == nil ==> (forall j int :: 0 <= j && j < len(values) ==> values[j] != nil && *values[j] != felt.Zero)
